@@ -15,6 +15,7 @@
   (operation, universe, completion order), not proved.
 -/
 import GqlVerif.Proofs.C10
+import GqlVerif.Proofs.C10Tree
 namespace GqlVerif.Props.C10
 open GqlVerif GqlVerif.Defer
 
@@ -152,5 +153,31 @@ example :
     accept [exF1, { hasData := false, pending := [], incremental := [], completed := [], hasNext := false }] = false ∧
     accept [exF1, { hasData := false, pending := [], incremental := [], completed := ["1"], hasNext := true }] = false := by
   decide
+
+/-! ## The defer tree of the resolver (model: GqlVerif.Proto.DeferTree)
+
+  While the resolver renders a deferred group it may seek into object fields that belong to *other* groups, but only
+  to enclosing ones (`Resolvable.isDeferAncestor`, called from `collectDeferFields` with the parent of the current
+  group): an enclosing group has delivered, so its data is in the tree; a sibling of an enclosing group may not have. -/
+section Tree
+open GqlVerif.Proto.DeferTree
+
+/-- the loop of `isDeferAncestor` decides exactly "is the parent or an enclosing defer of it" -/
+theorem is_defer_ancestor_iff_enclosing (parent : Nat → Nat) (hw : WF parent) (f p : Nat) :
+    anc parent f p = true ↔ InChain parent p f := anc_iff parent hw f p
+
+/-- in **every** delivery order that delivers a nested group after its enclosing group, the renderer of group `g` only
+    seeks into groups that were delivered before `g` -/
+theorem renderer_seeks_only_into_delivered_groups (parent : Nat → Nat) (ord : List Nat) (hv : Valid parent ord)
+    (l₁ : List Nat) (g : Nat) (l₂ : List Nat) (ho : ord = l₁ ++ g :: l₂) (f : Nat)
+    (h : anc parent f (parent g) = true) : f ∈ l₁ :=
+  seeks_only_into_delivered_groups parent ord hv l₁ g l₂ ho f h
+
+/-! Non-vacuity, and why the id order alone does not decide it: defers 2 and 3 inside 1, defer 4 inside 3; in the
+    delivery order 1,3,4,2 group 2 (an "uncle" of 4 with a smaller id than 4's parent) has not delivered when 4 is rendered. -/
+def parentEx : Nat → Nat := fun g => if g == 2 then 1 else if g == 3 then 1 else if g == 4 then 3 else 0
+example : anc parentEx 3 (parentEx 4) = true ∧ anc parentEx 1 (parentEx 4) = true ∧ anc parentEx 2 (parentEx 4) = false := by decide
+example : (2 ≤ parentEx 4) ∧ 2 ∉ [1, 3] := by decide
+end Tree
 
 end GqlVerif.Props.C10
